@@ -153,7 +153,21 @@ type buildInfo struct {
 var pkgClause = regexp.MustCompile(`(?m)^package\s+(\w+)`)
 
 // prepareOverlay collects harness files and generates the prims per package.
-func prepareOverlay() (*buildInfo, error) {
+func overridesOf(obs []*sx.Obligation) []sx.SourceOverride {
+	var out []sx.SourceOverride
+	seen := map[sx.SourceOverride]bool{}
+	for _, o := range obs {
+		for _, so := range o.SourceOverrides {
+			if !seen[so] {
+				seen[so] = true
+				out = append(out, so)
+			}
+		}
+	}
+	return out
+}
+
+func prepareOverlay(overrides []sx.SourceOverride) (*buildInfo, error) {
 	hdir := filepath.Join(verifDir, "harness", "pkgs")
 	ov, files, err := sx.ReadOverlay(hdir, repoDir)
 	if err != nil {
@@ -161,6 +175,33 @@ func prepareOverlay() (*buildInfo, error) {
 	}
 	bi := &buildInfo{overlayLoad: ov, pkgDirs: map[string]string{}}
 	replace := map[string]string{}
+	// source overrides: the current /repo file with single literal replacements
+	byFile := map[string][]byte{}
+	for _, so := range overrides {
+		path := filepath.Join(repoDir, so.File)
+		b, ok := byFile[path]
+		if !ok {
+			if b, err = os.ReadFile(path); err != nil {
+				return nil, fmt.Errorf("source override: %v", err)
+			}
+		}
+		if strings.Count(string(b), so.Old) != 1 {
+			return nil, fmt.Errorf("source override: %q does not occur exactly once in %s", so.Old, so.File)
+		}
+		byFile[path] = []byte(strings.Replace(string(b), so.Old, so.New, 1))
+	}
+	for path, b := range byFile {
+		rel, _ := filepath.Rel(repoDir, path)
+		dst := filepath.Join(verifDir, "build", "gen", "override", rel)
+		if err := os.MkdirAll(filepath.Dir(dst), 0o755); err != nil {
+			return nil, err
+		}
+		if err := os.WriteFile(dst, b, 0o644); err != nil {
+			return nil, err
+		}
+		bi.overlayLoad[path] = b
+		replace[path] = dst
+	}
 	for dst, src := range files {
 		replace[dst] = src
 		rel, _ := filepath.Rel(repoDir, filepath.Dir(dst))
@@ -325,11 +366,6 @@ func cmdReplay(args []string) int {
 		fmt.Fprintln(os.Stderr, "usage: gsx replay <file>")
 		return 2
 	}
-	bi, err := prepareOverlay()
-	if err != nil {
-		fmt.Fprintln(os.Stderr, err)
-		return 2
-	}
 	b, err := os.ReadFile(args[0])
 	if err != nil {
 		fmt.Fprintln(os.Stderr, err)
@@ -337,6 +373,19 @@ func cmdReplay(args []string) int {
 	}
 	var doc replayDoc
 	if err := json.Unmarshal(b, &doc); err != nil {
+		fmt.Fprintln(os.Stderr, err)
+		return 2
+	}
+	var same []*sx.Obligation
+	if all, err := loadObligations(); err == nil {
+		for _, o := range all {
+			if o.Prop == doc.Property {
+				same = append(same, o)
+			}
+		}
+	}
+	bi, err := prepareOverlay(overridesOf(same))
+	if err != nil {
 		fmt.Fprintln(os.Stderr, err)
 		return 2
 	}
@@ -405,9 +454,9 @@ func cmdCheck(args []string) int {
 		// the seed only permutes obligation order
 		sort.SliceStable(sel, func(i, j int) bool { return (i*7919+seed)%len(sel) < (j*7919+seed)%len(sel) })
 	}
-	bi, err := prepareOverlay()
+	bi, err := prepareOverlay(overridesOf(sel))
 	if err != nil {
-		fmt.Fprintln(os.Stderr, "overlay:", err)
+		fmt.Fprintln(os.Stderr, "MACHINERY-FAILURE: overlay:", err)
 		return 2
 	}
 	tl := time.Now()
